@@ -463,11 +463,48 @@ def solve(s):
 NSHARD = 64
 
 
+CHAIN_LENGTHS = dict(quick=[30, 60, 120, 250, 500], thorough=[30, 60, 120, 250, 500, 900])
+
+
+def chain_asts(tier):
+    """long FLAT well-formed expressions: one operator (or two alternating ones of the same step) repeated L times"""
+    ops = [("+",), ("-",), ("*",), ("/",), ("**",), ("+", "-"), ("*", "/"), ("&&",), ("||",), ("&&", "||"),
+           ("<",), ("==",), ("!=", ">=")]
+    for group in ops:
+        for L in CHAIN_LENGTHS[tier]:
+            if group == ("**",):
+                nums = ["1"] * (L + 1)
+            elif group[0] in ("&&", "||"):
+                nums = [("1", "0", "0")[i % 3] for i in range(L + 1)]
+            else:
+                nums = [("1", "2", "3")[i % 3] for i in range(L + 1)]
+            # precedence: && binds tighter than ||  -> build the tree by the grammar, not blindly left-nested
+            if group == ("&&", "||"):
+                terms, cur = [], ("num", nums[0])
+                for i in range(L):
+                    op = group[i % 2]
+                    if op == "&&":
+                        cur = ("bin", "&&", cur, ("num", nums[i + 1]))
+                    else:
+                        terms.append(cur)
+                        cur = ("num", nums[i + 1])
+                terms.append(cur)
+                t = terms[0]
+                for x in terms[1:]:
+                    t = ("bin", "||", t, x)
+            else:
+                t = ("num", nums[0])
+                for i in range(L):
+                    t = ("bin", group[i % len(group)], t, ("num", nums[i + 1]))
+            yield (list(group), L), t
+
+
 def plan(tier, seed):
     out = []
     for (name, _, n, _, _, _, _) in layers(tier):
         for k in range(NSHARD):
             out.append((tier, name, k))
+    out.append((tier, "chains", 0))
     return out
 
 
@@ -484,7 +521,7 @@ def _tags(t, s):
     return tags
 
 
-def check_ast(sh, t, variants, seen):
+def check_ast(sh, t, variants, seen, chain=None):
     try:
         exp = ("ok", ev(t))
     except Exception as e:
@@ -501,7 +538,8 @@ def check_ast(sh, t, variants, seen):
         sh.count("wf:" + cg[0])
         if cg != cexp:
             beh = ("raises:" + got[1]) if got[0] == "err" else ("accepts-invalid" if cexp[0] == "err" else "wrong-value")
-            sh.fail(failure("wellformed", dict(ast=t, variant=v, text=s), exp[1:] if exp[0] == "err" else repr(exp[1]),
+            case = dict(ast=t, variant=v, text=s) if chain is None else dict(chain=chain, variant=v, text=s[:120] + "...")
+            sh.fail(failure("wellformed", case, exp[1:] if exp[0] == "err" else repr(exp[1]),
                             got[1:] if got[0] == "err" else repr(getattr(got[1], "value", got[1])),
                             tags=_tags(t, s), behaviour=beh))
 
@@ -527,6 +565,18 @@ def run_shard(desc):
     tier, lname, k = desc
     sh = Shard(PROPERTY)
     seen = set()
+    if lname == "chains":
+        import sys
+        sys.setrecursionlimit(max(sys.getrecursionlimit(), 5000))
+        n = 0
+        for key, t in chain_asts(tier):
+            before = len(seen)
+            check_ast(sh, t, ["tight", "both"], seen, chain=key)
+            sh.nontrivial += len(seen) - before
+            n += 1
+        sh.add_extra("chain_expressions", n)
+        sh.count("chains", n)
+        return sh
     for (name, alpha, nmax, variants, do_edits, nins, nvar) in layers(tier):
         if name != lname:
             continue
@@ -553,9 +603,16 @@ def _totuple(x):
 
 
 def replay(rec):
+    import sys
+    sys.setrecursionlimit(max(sys.getrecursionlimit(), 5000))
     c = rec["case"]
     sh = Shard()
-    if rec["sub"] == "wellformed":
+    if rec["sub"] == "wellformed" and "chain" in c:
+        for tier in ("quick", "thorough"):
+            for key, t in chain_asts(tier):
+                if list(key) == [list(c["chain"][0]), c["chain"][1]] and not sh.failures:
+                    check_ast(sh, t, [c["variant"]], set(), chain=key)
+    elif rec["sub"] == "wellformed":
         check_ast(sh, _totuple(c["ast"]), [c["variant"]], set())
     else:
         s = c["text"]
